@@ -149,6 +149,13 @@ def gen(ctx):
                     ops.pop()
         if ops:
             cases.append({"doc": doc, "ops": ops})
+    # the root replaced by a scalar (in particular by strings that look like JSON text), then every kind of operation
+    for first in ("replace", "add"):
+        for v in ["[1", "[1,2]", "{\"a\": 1}", "abc", "", "1", "null", 5, None, True]:
+            for nxt in ({"op": "add", "path": "/0", "value": 1}, {"op": "add", "path": "/a", "value": 1}, {"op": "test", "path": "", "value": v}, {"op": "test", "path": "", "value": [1, 2]},
+                        {"op": "remove", "path": "/0"}, {"op": "replace", "path": "/a", "value": 2}, {"op": "copy", "from": "", "path": "/a"}, {"op": "move", "from": "/0", "path": "/1"},
+                        {"op": "replace", "path": "", "value": {"b": 1}}, {"op": "add", "path": "/-", "value": 1}):
+                cases.append({"doc": {"a": 1}, "ops": [{"op": first, "path": "", "value": v}, nxt]})
     return cases
 
 
